@@ -6,6 +6,10 @@ warnings.simplefilter("ignore")
 def main():
     pid, tier, seed, shard, nshards, out, budget = sys.argv[1:8]
     seed, shard, nshards, budget = int(seed), int(shard), int(nshards), float(budget)
+    # the server's answers and records do not depend on the operator's time zone: shards run in different ones
+    import time as _t
+    os.environ["TZ"] = ["UTC", "IST-5:30", "NPT-5:45", "EST5EDT", "NZST-12NZDT", "UTC"][shard % 6]
+    _t.tzset()
     from mon.checks import registry
     from mon.checks.common import Acc
     from mon.engine import Inconclusive
